@@ -675,7 +675,10 @@ def c06(tier, seed, work):
     a, i = suite_for(seed, 2)
     d = 2 if tier == "quick" else 3
     # Open Session Request / RAKP messages of later establishments on a connection that has carried in-session traffic
-    hs = [F.handshake_family(work, "c06-longuser", "longuser", tier, seed), F.handshake_family(work, "c06-lifecycle", "lifecycle", tier, seed)]
+    hs = [F.handshake_family(work, "c06-longuser", "longuser", tier, seed), F.handshake_family(work, "c06-lifecycle", "lifecycle", tier, seed),
+          # every field of the set-up requests for every suite, credential shape, privilege level (also when the BMC grants
+          # another level than asked for) and order of preferences on a connection that has negotiated before
+          F.handshake_family(work, "c06-honest", "honest", "quick", seed)]
     require_accepted(hs)
     ex = []
     for f in hs:
@@ -970,6 +973,11 @@ def c19(tier, seed, work):
                                       "ctx": {"goroutines": n, "family": conc["name"].split("-")[-1]},
                                       "where": {"family": conc["name"], "script_id": key[1], "solo": evs[-3:], "concurrent": (got.get(k2) or [])[-3:]}})
             for v in flatten(conc):
+                if v["prop"] == "HARNESS" and v["pred"] == "prefixFailed" and not any(x["prop"] == "HARNESS" for x in flatten(solo)):
+                    # the same script established its session when run alone (the solo family was accepted without harness
+                    # errors): that it cannot next to the others is interference
+                    viols.append(dict(v, prop="C19", pred="results-identical-to-the-same-workload-run-alone"))
+                    continue
                 viols.append(v)
     require_accepted(fams)
     for v in viols:
